@@ -170,11 +170,56 @@ def parse_cache_wiring(repo):
     return sites
 
 
+WRAPPERS = [("ExplicitTreeAut", "src/explicit_tree_aut.cc"), ("ExplicitFiniteAut", "src/explicit_finite_aut.cc"),
+            ("BDDBottomUpTreeAut", "src/bdd_bu_tree_aut.cc"), ("BDDTopDownTreeAut", "src/bdd_td_tree_aut.cc")]
+
+
+def parse_wrappers(repo):
+    """the four public pimpl wrappers: for every out-of-class definition `Cls::Method(...) { body }` (constructors, destructors,
+    operators and the nested iterator classes left out) the list of core methods the body calls (`core_->X(`, `CoreAut::X(`,
+    `….core_->X(`), in order of appearance, without repetitions"""
+    rows = []
+    for cls, rel in WRAPPERS:
+        txt = strip_comments(open(os.path.join(repo, rel)).read())
+        for m in re.finditer(r"\b" + cls + r"::(\w+)\s*\(", txt):
+            name = m.group(1)
+            # nested classes (Cls::Iterator::…) and constructors / destructors are not forwarding methods
+            pre = txt[max(0, m.start() - 2):m.start()]
+            if pre.endswith("::") or name == cls:
+                continue
+            # find the end of the parameter list, then the body
+            i, depth = m.end(), 1
+            while i < len(txt) and depth:
+                depth += {"(": 1, ")": -1}.get(txt[i], 0)
+                i += 1
+            j = i
+            while j < len(txt) and txt[j] not in "{;":
+                j += 1
+            if j >= len(txt) or txt[j] == ";":
+                continue                      # a call or a declaration, not a definition
+            head = txt[i:j]
+            if re.search(r"[^\s\w]", head.replace("const", "")):
+                continue                      # not a plain `) const {`
+            k, depth = j + 1, 1
+            while k < len(txt) and depth:
+                depth += {"{": 1, "}": -1}.get(txt[k], 0)
+                k += 1
+            body = txt[j:k]
+            calls = []
+            for c in re.finditer(r"(?:core_\s*->|CoreAut::)\s*(?:template\s+)?(\w+)\s*[<(]", body):
+                if c.group(1) not in calls and c.group(1) not in ("ParentAut",):
+                    calls.append(c.group(1))
+            rows.append((cls, name + (" const" if "const" in head else ""), calls))
+    if len(rows) < 80:
+        raise ValueError(f"only {len(rows)} wrapper methods recognised")
+    return rows
+
+
 def lean_str(s):
     return '"' + s.replace("\\", "\\\\").replace('"', '\\"') + '"'
 
 
-def render(flags, words, tables, errors, wiring=(), werrors=()):
+def render(flags, words, tables, errors, wiring=(), werrors=(), wrappers=(), wraperrors=()):
     out = []
     out.append("/-! GENERATED by tools/extract_tables.py from /repo's sources on every run – do not edit. -/")
     out.append("namespace Vata.Gen\n")
@@ -203,6 +248,12 @@ def render(flags, words, tables, errors, wiring=(), werrors=()):
         + ", ".join("(" + lean_str(n) + ", " + ("0" if meth == "invalidateFirst" else "1") + ")" for n, meth in w["calls"]) + "], " + str(w["other"]) + ")"
         for w in wiring))
     out.append("]\n")
+    out.append("/-- translator diagnostics of the wrapper extraction -/")
+    out.append("def wrapperErrors : List String := [" + ", ".join(lean_str(e) for e in wraperrors) + "]\n")
+    out.append("/-- the public pimpl wrappers: (class, method, core methods its body calls) for every out-of-class method definition -/")
+    out.append("def wrapperCalls : List (String × String × List String) := [")
+    out.append(",\n".join("  (" + lean_str(c) + ", " + lean_str(n) + ", [" + ", ".join(lean_str(x) for x in calls) + "])" for c, n, calls in wrappers))
+    out.append("]\n")
     out.append("end Vata.Gen")
     return "\n".join(out) + "\n"
 
@@ -226,7 +277,12 @@ def regenerate(repo, dst):
         wiring = parse_cache_wiring(repo)
     except Exception as e:  # noqa
         werrors.append("cache wiring: " + str(e))
-    txt = render(flags, words, tables, errors, wiring, werrors)
+    wrappers, wraperrors = [], []
+    try:
+        wrappers = parse_wrappers(repo)
+    except Exception as e:  # noqa
+        wraperrors.append("wrappers: " + str(e))
+    txt = render(flags, words, tables, errors, wiring, werrors, wrappers, wraperrors)
     os.makedirs(os.path.dirname(dst), exist_ok=True)
     old = open(dst).read() if os.path.exists(dst) else None
     if old != txt:
